@@ -170,8 +170,10 @@ func (r *runner) apply(l *live, o Op, h *History, check bool) (applicable bool) 
 			return false
 		}
 		for _, nm := range beforeList {
-			if t, err := fmtspec.Decode(l.w.Lookup(nm).Data); err == nil {
-				beforeDecoded = append(beforeDecoded, t)
+			if ino := l.w.Lookup(nm); ino != nil {
+				if t, err := fmtspec.Decode(ino.Data); err == nil {
+					beforeDecoded = append(beforeDecoded, t)
+				}
 			}
 		}
 		v0, err := l.view()
@@ -270,6 +272,19 @@ func (r *runner) apply(l *live, o Op, h *History, check bool) (applicable bool) 
 			}
 			viol(sig, fmt.Sprintf("after %s the view differs from the reference map.\n--- got\n%s\n--- want\n%s", o, v1, want))
 		}
+	}
+	// whatever the operation was, every table the list names must still be there
+	for _, n := range listNames(l.w) {
+		if l.w.Lookup(n) == nil {
+			viol("history:listed-table-removed@"+o.Kind, fmt.Sprintf("after %s tables.list names %s, which no longer exists (list %v, directory %v)", o, n, listNames(l.w), l.w.Names()))
+			return true
+		}
+	}
+	// a handle opened now sees the same as this one
+	if v2, err := freshView(l); err != nil {
+		viol("history:fresh-open-fails@"+o.Kind+":"+errClass(err.Error()), fmt.Sprintf("after %s a fresh NewStack+scan fails: %v", o, err))
+	} else if want := l.model.CanonString(l.hs); v2 != want {
+		viol("history:fresh-view-differs@"+o.Kind, fmt.Sprintf("after %s a freshly opened handle sees\n%s\n--- want\n%s", o, v2, want))
 	}
 	// C14: every new table file is well-formed
 	for n := range dirTables(l.w) {
@@ -386,10 +401,33 @@ func (r *runner) replay(h *History, checkAll bool) (*live, bool) {
 	return l, ok
 }
 
+// freshView opens the directory with a second handle (same process) and scans it.
+func freshView(l *live) (string, error) {
+	var out string
+	err := guard(func() error {
+		st, err := reftable.NewStack(stk.Dir, l.cfg)
+		if err != nil {
+			return err
+		}
+		defer st.Close()
+		refs, logs, err := hx.ReadAll(st.Merged(), l.hs)
+		if err != nil {
+			return err
+		}
+		out = hx.Joined(refs, logs)
+		return nil
+	})
+	return out, err
+}
+
 func (r *runner) stateKey(l *live) string {
 	var sb strings.Builder
 	for _, n := range listNames(l.w) {
 		ino := l.w.Lookup(n)
+		if ino == nil {
+			sb.WriteString("MISSING,")
+			continue
+		}
 		fmt.Fprintf(&sb, "%x/%d,", ino.Hash(), len(ino.Data))
 	}
 	sb.WriteString("|")
